@@ -143,6 +143,12 @@ func (mt *MoreThuente) Iterate(f, g float64) (Operation, float64, error) {
 			// step contains the best step found (see below).
 			return NoOperation, mt.step, ErrLinesearcherFailure
 		}
+	} else if math.Abs(mt.step-mt.x) <= mt.StepTolerance*mt.step {
+		// The minimum has not been bracketed and the trial step can no
+		// longer be told from the best step so far: the interval
+		// [lower, upper] the next step is confined to has collapsed onto
+		// step and rounding errors prevent further progress.
+		return NoOperation, mt.step, ErrLinesearcherFailure
 	}
 	if mt.step == mt.MaximumStep && f <= fTest && g <= gTest {
 		return NoOperation, mt.step, ErrLinesearcherBound
